@@ -130,7 +130,9 @@ func (r *Run) Sample(kind string, v any) {
 // Violate records a violation; at most 3 replays are kept per fingerprint.
 func (r *Run) Violate(fp, detail string, rp Replay) {
 	r.violSeen[fp]++
-	r.violTotal++
+	if !isKnownFingerprint(r.Property, fp) {
+		r.violTotal++
+	}
 	if r.violSeen[fp] > 3 {
 		return
 	}
